@@ -37,6 +37,8 @@ use std::sync::OnceLock;
 pub mod text;
 #[path = "c02_layout.rs"]
 pub mod layout;
+#[path = "c02_morx.rs"]
+pub mod morx;
 use text::{alphabet_for, Tok};
 
 pub struct C02;
@@ -180,6 +182,11 @@ pub struct FontEntry {
     pub probes: Vec<Probe>,
     /// built per case from a C04 program and/or a C05 tape
     pub generated: bool,
+    /// texts for this font are spelled with U+E000 + glyph id
+    pub pua: bool,
+    /// false for generated fonts whose substitutions name glyphs the font does not have (the
+    /// glyph id clause of the property only speaks about well-formed fonts)
+    pub well_formed: bool,
     /// variation tuples at the condition boundaries of the generated FeatureVariations
     pub tuples: Vec<Vec<i16>>,
 }
@@ -314,7 +321,11 @@ fn make_entry(group: &'static str, name: String, script: [u8; 4], synthetic: boo
                 anchors = simple_anchors(&h, &[(2, layout::Kind::Count), (6, layout::Kind::Count), (8, layout::Kind::Format), (10, layout::Kind::Count)]);
                 h
             }
-            _ => (0..body.len().min(1024) as u32 / 2).map(|i| i * 2).collect(),
+            _ => {
+                // morx: what shape applies when there is no GSUB
+                has = true;
+                (0..body.len().min(1024) as u32 / 2).map(|i| i * 2).collect()
+            }
         };
         let hot: Vec<u32> = hot.into_iter().filter(|p| (*p as usize) + 2 <= l).collect();
         anchors.retain(|a| a.off as usize + a.width as usize <= l);
@@ -334,6 +345,8 @@ fn make_entry(group: &'static str, name: String, script: [u8; 4], synthetic: boo
         variable: dir.iter().any(|e| &e.tag == b"fvar"),
         probes,
         generated: false,
+        pua: false,
+        well_formed: true,
         tuples: Vec::new(),
     })
 }
@@ -1285,6 +1298,8 @@ pub struct Generated {
     pub retag: bool,
     /// when both programs carry a GDEF: take the GPOS program's
     pub gdef_from_gpos: bool,
+    /// a generated `morx` table in a font without GSUB / GPOS (the other programs are ignored)
+    pub morx: Option<morx::MorxCase>,
 }
 
 const GEN_SCRIPTS: [[u8; 4]; 9] = [*b"arab", *b"deva", *b"khmr", *b"mym2", *b"thai", *b"syrc", *b"beng", *b"taml", *b"mlym"];
@@ -1299,8 +1314,28 @@ fn shaper_feature_tags(script: &[u8; 4]) -> &'static [&'static [u8; 4]] {
     }
 }
 
+fn build_morx_font(m: &morx::MorxCase) -> Option<FontEntry> {
+    let mut f = synthetic_base();
+    let (bytes, anchors) = morx::encode(m, f.num_glyphs());
+    f.extra.push((*b"morx", bytes));
+    if m.with_kern {
+        f.extra.push((*b"kern", kern_format0(&[(1, 2, -40), (2, 1, 25), (3, 3, 7)])));
+    }
+    let mut e = make_entry("generated", "generated/morx:latn".to_string(), *b"latn", true, f.build())?;
+    e.generated = true;
+    let n = f.num_glyphs();
+    e.well_formed = m.chains.iter().all(|c| c.subs.iter().all(|s| s.substs.iter().all(|(_, map)| map.iter().all(|(_, o)| *o < n)) && s.ligs.iter().all(|l| *l < n)));
+    for t in e.tables.iter_mut().filter(|t| &t.tag == b"morx") {
+        t.anchors = anchors.iter().filter(|a| a.off as usize + a.width as usize <= t.len).cloned().collect();
+    }
+    Some(e)
+}
+
 fn build_generated(g: &Generated) -> Option<FontEntry> {
     use crate::fontgen::{otl, otl_gpos};
+    if let Some(m) = &g.morx {
+        return build_morx_font(m);
+    }
     use crate::props::{c04, c05};
     let p4 = g.gsub.as_ref().map(|c| c04::resolve(c));
     let p5 = g.tape.as_ref().map(|t| c05::build_program(t));
@@ -1417,6 +1452,7 @@ fn build_generated(g: &Generated) -> Option<FontEntry> {
     );
     let mut e = make_entry("generated", name, script, true, f.build())?;
     e.generated = true;
+    e.pua = true;
     e.tuples = tuples;
     // the generators' own witness strings, spelled with the private-use characters
     for s in strings.iter().filter(|s| !s.is_empty()).take(12) {
@@ -1433,7 +1469,9 @@ fn gen_strategy() -> impl Strategy<Value = Generated> {
         25 => tape().prop_map(|t| (None, Some(t))),
         40 => (crate::props::c04::case_strategy(), tape()).prop_map(|(c, t)| (Some(Box::new(c)), Some(t))),
     ];
-    (programs, 0u8..12, any::<bool>(), any::<bool>()).prop_map(|((gsub, tape), script, retag, gdef_from_gpos)| Generated { gsub, tape, script, retag, gdef_from_gpos })
+    let layout = (programs, 0u8..12, any::<bool>(), any::<bool>()).prop_map(|((gsub, tape), script, retag, gdef_from_gpos)| Generated { gsub, tape, script, retag, gdef_from_gpos, morx: None });
+    let state_tables = morx::strategy().prop_map(|m| Generated { gsub: None, tape: None, script: 0, retag: false, gdef_from_gpos: false, morx: Some(m) });
+    prop_oneof![70 => layout, 30 => state_tables]
 }
 
 fn generated_strategy(max_toks: usize, max_len: u16) -> impl Strategy<Value = Case> {
@@ -1447,6 +1485,11 @@ fn generated_strategy(max_toks: usize, max_len: u16) -> impl Strategy<Value = Ca
             _ => c.script,
         };
         c.text_follows_script = false;
+        if g.morx.is_some() {
+            // morx is only used by the default shaper path... every script goes through it, but
+            // keep the text Latin (the class tables talk about the first letters)
+            c.alphabet = None;
+        }
         // witness / reaching strings more often than for catalogue fonts
         if c.probe.is_none() && sel & 0x300 != 0 {
             c.probe = Some((sel.rotate_left(9), if m & 0x60 == 0 { m | 0x10 } else { m & !0x10 }));
@@ -1944,7 +1987,23 @@ pub fn case_from_bytes(data: &[u8]) -> arbitrary::Result<Case> {
             _ => c.script,
         };
         c.text_follows_script = false;
-        c.generated = Some(Generated { gsub, tape, script, retag: gflags & 8 != 0, gdef_from_gpos: gflags & 16 != 0 });
+        c.generated = Some(Generated { gsub, tape, script, retag: gflags & 8 != 0, gdef_from_gpos: gflags & 16 != 0, morx: None });
+        return Ok(c);
+    }
+    if mode < 128 {
+        // generated morx font: 32 bytes seed the morx strategy, the rest is a general case
+        let mut seed = [0u8; 32];
+        for b in seed.iter_mut() {
+            *b = u.arbitrary()?;
+        }
+        let m = morx_case_from_seed(seed);
+        let mut c = general_case(&mut u)?;
+        if c.faults.len() > 2 {
+            c.faults.truncate(2);
+        }
+        c.script = if mode & 1 == 0 { ScriptSel::Tag(*b"latn") } else { c.script };
+        c.text_follows_script = false;
+        c.generated = m.map(|m| Generated { gsub: None, tape: None, script: 0, retag: false, gdef_from_gpos: false, morx: Some(m) });
         return Ok(c);
     }
     general_case(&mut u)
@@ -1956,6 +2015,13 @@ fn c04_case_from_seed(seed: [u8; 32]) -> Option<crate::props::c04::Case> {
     use proptest::test_runner::{Config, RngAlgorithm, TestRng, TestRunner};
     let mut runner = TestRunner::new_with_rng(Config::default(), TestRng::from_seed(RngAlgorithm::ChaCha, &seed));
     crate::props::c04::case_strategy().new_tree(&mut runner).ok().map(|t| t.current())
+}
+
+fn morx_case_from_seed(seed: [u8; 32]) -> Option<morx::MorxCase> {
+    use proptest::strategy::ValueTree;
+    use proptest::test_runner::{Config, RngAlgorithm, TestRng, TestRunner};
+    let mut runner = TestRunner::new_with_rng(Config::default(), TestRng::from_seed(RngAlgorithm::ChaCha, &seed));
+    morx::strategy().new_tree(&mut runner).ok().map(|t| t.current())
 }
 
 fn general_case(u: &mut Unstructured) -> arbitrary::Result<Case> {
@@ -2212,7 +2278,7 @@ pub fn check_case(case: &Case, rec: &mut Rec) -> CaseResult {
         ScriptSel::Tag(t) => (tagv(&t), if tagv(&t) == matching { "matching" } else { "other" }),
     };
     let alphabet = if let Some(a) = case.alphabet {
-        if entry.generated && &a == b"latn" {
+        if entry.pua && &a == b"latn" {
             &text::PUA
         } else if entry.synthetic && &a == b"latn" {
             &text::SYNTHETIC
@@ -2221,7 +2287,7 @@ pub fn check_case(case: &Case, rec: &mut Rec) -> CaseResult {
         }
     } else if case.text_follows_script && script_class == "other" {
         alphabet_for(&script_tag.to_be_bytes())
-    } else if entry.generated && &entry.script == b"latn" {
+    } else if entry.pua && &entry.script == b"latn" {
         &text::PUA
     } else if entry.synthetic && &entry.script == b"latn" {
         &text::SYNTHETIC
@@ -2456,7 +2522,7 @@ pub fn check_case(case: &Case, rec: &mut Rec) -> CaseResult {
                 ));
             }
         }
-        if intact && info.glyph.glyph_index >= num_glyphs {
+        if intact && entry.well_formed && info.glyph.glyph_index >= num_glyphs {
             return Err(fail(
                 "glyph-id-out-of-range",
                 format!("{} (intact) text {:?} script {:?}: glyph {} has id {} >= numGlyphs {} (shape returned {})", entry.name, text, String::from_utf8_lossy(&script_tag.to_be_bytes()), i, info.glyph.glyph_index, num_glyphs, if shaped_ok { "Ok" } else { "Err" }),
@@ -2523,6 +2589,7 @@ pub fn check_case(case: &Case, rec: &mut Rec) -> CaseResult {
     rec.class_if(n_distance > 0, "placement:distance");
     rec.class_if(infos.iter().any(|i| i.kerning != 0), "placement:kerning");
     rec.class_if(case.vertical, "vertical");
+    rec.class_if(!entry.well_formed, "excl:generated-morx-names-missing-glyphs");
     if let Some(f) = case.focus {
         rec.class(&format!("focus:{:?}", f));
     }
@@ -2752,6 +2819,36 @@ fn field_case(plan: &[FieldItem], i: u64) -> Option<Case> {
     })
 }
 
+// ---- deterministic morx state graph enumeration
+
+fn morx_graph_case(m: morx::MorxCase, j: u64) -> Case {
+    // 'a' is class 4, 'b' class 5, 'z' out of bounds
+    const TEXTS: [&str; 4] = ["abab", "ba", "aazb", "b"];
+    Case {
+        generated: Some(Generated { gsub: None, tape: None, script: 0, retag: false, gdef_from_gpos: false, morx: Some(m) }),
+        direct: None,
+        group: 0,
+        font: 0,
+        faults: Vec::new(),
+        script: ScriptSel::Tag(*b"latn"),
+        text_follows_script: false,
+        lang: LangSel::None,
+        feats: FeatSel::Mask(0),
+        tuple: None,
+        kerning: false,
+        presentation_required: false,
+        rtl: false,
+        vertical: false,
+        max_len: 16,
+        text: TEXTS[(j % 4) as usize].chars().map(|c| Tok::Lit(c as u32)).collect(),
+        tail: Vec::new(),
+        alphabet: None,
+        focus: None,
+        probe: None,
+        probe_exact: None,
+    }
+}
+
 // ---- deterministic fraction sweep
 
 fn fraction_plan() -> Vec<(u16, u16)> {
@@ -2838,12 +2935,16 @@ impl Property for C02 {
          generated-layout font: GSUB/GDEF/FeatureVariations from a C04 program and/or GPOS/kern/GDEF from a C05 tape over a shared \
          glyph set (U+E000+gid, plus the characters of a complex script when the programs are also registered under arab/deva/ \
          khmr/mym2/thai/syrc/beng/taml/mlym, optionally with the features renamed to those the shaper applies), intact or with \
-         structural faults, with the generators' witness strings and the deep reader's reaching strings. Deterministic sweeps: all strings \
+         structural faults, with the generators' witness strings and the deep reader's reaching strings; 30 % of the generated fonts \
+         instead carry a generated morx table and no GSUB (1-2 chains, contextual / ligature / non-contextual / opaque subtables, \
+         class lookup formats 0/2/4/6/8/10, 2-6 states whose next states are drawn from all states and whose flags are drawn \
+         independently, in-range and boundary indices; structural faults use the encoder's own field positions). Deterministic \
+         sweeps: every 2- and 3-state morx state graph over two classes with every DONT_ADVANCE pattern (contextual and ligature); all strings \
          of 3 (thorough also 4) key characters per script; prefix x fraction x suffix x script x mask on every font with frac; \
          layout-fields = one small font per script group and every synthetic font x every located field (quick: header-level \
          fields of fixtures, all fields of synthetic fonts) x 6 boundary values x 2 reaching strings. \
          Pipeline map_glyphs -> shape -> glyph_positions. Non-trivial: text non-empty, at least one glyph mapped (id != 0), \
-         font has GSUB or GPOS. Distinct: hash of (font, applied faults, resolved text, script, language, features, tuple, flags)."
+         font has GSUB, GPOS or morx. Distinct: hash of (font, applied faults, resolved text, script, language, features, tuple, flags)."
             .to_string()
     }
     fn assumptions(&self) -> Vec<String> {
@@ -2870,6 +2971,17 @@ impl Property for C02 {
                 check_case(&c, rec)
             }
             None => Ok(()),
+        });
+        // seed-independent: every 2-state and 3-state morx state graph over
+        // two glyph classes with every DONT_ADVANCE pattern, contextual and ligature subtables
+        let n2 = morx::graph_count(2) * 4; // each 2-state graph with four texts
+        let n3 = morx::graph_count(3);
+        ctx.enumerate("morx-state-graphs", 2 * (n2 + n3), true, |i, rec| {
+            let kind = if i % 2 == 0 { 1u8 } else { 2u8 };
+            let j = i / 2;
+            let (m, text) = if j < n2 { (morx::graph_case(kind, 2, j / 4), j % 4) } else { (morx::graph_case(kind, 3, j - n2), (j - n2) % 2) };
+            rec.class("sweep");
+            check_case(&morx_graph_case(m, text), rec)
         });
         // seed-independent: prefix x fraction x suffix x script x mask on every font with `frac`
         let fplan = fraction_plan();
